@@ -164,12 +164,12 @@ fn erdos_renyi_rejects<R: Rep, const N: usize>() {
     cx::set_vcap(N + 1);
     cx::set_parallelism(1);
 
-    let p = nd::f64();
+    // representatives of the complement of [0, 1]: just outside on both sides, far outside,
+    // the infinities and NaN
+    const BAD: [f64; 7] = [-f64::MIN_POSITIVE, 1.0 + f64::EPSILON, -1.0, 2.0, f64::INFINITY, f64::NEG_INFINITY, f64::NAN];
 
-    // the complement of [0, 1], NaN included
-    kani::assume(!(p >= 0.0 && p <= 1.0));
-
-    let d = R::erdos_renyi(N, p, nd::u64());
+    let p = BAD[nd::below(7)];
+    let d = R::erdos_renyi(N, p, nd::below(4) as u64);
 
     core::mem::forget(d);
     crate::rejected_call_returned();
@@ -282,7 +282,7 @@ pub fn c15_tree_adjacency_list_n3() {
     tree::<AdjacencyList, 3>();
 }
 
-// @verif prop=C15 tier=thorough fl=f1 role=tree/adjacency-map t=1800 mem=16
+// @verif prop=C15 tier=thorough fl=f1 feat=map4 role=tree/adjacency-map t=1800 mem=16
 #[cfg_attr(kani, kani::proof)]
 #[cfg_attr(kani, kani::unwind(10))]
 pub fn c15_tree_adjacency_map_n3() {
@@ -341,7 +341,7 @@ pub fn c15_erdos_renyi_rejects_edge_list() {
     erdos_renyi_rejects::<EdgeList, 3>();
 }
 
-// @verif prop=C15 tier=quick fl=f2 role=erdos-renyi-rejects/adjacency-map t=1200 mem=12 expect=panic
+// @verif prop=C15 tier=quick fl=f2 feat=map4 role=erdos-renyi-rejects/adjacency-map t=1200 mem=12 expect=panic
 #[cfg_attr(kani, kani::proof)]
 #[cfg_attr(kani, kani::unwind(10))]
 pub fn c15_erdos_renyi_rejects_adjacency_map() {
@@ -357,7 +357,7 @@ pub fn c15_deterministic_matrix_n3() {
 }
 
 // Determinism of the threaded AdjacencyMap generators within one configuration (p symbolic, equal in both calls).
-// @verif prop=C15 tier=thorough fl=f2 role=deterministic/adjacency-map t=3600 mem=24
+// @verif prop=C15 tier=thorough fl=f2 feat=map4 role=deterministic/adjacency-map t=3600 mem=24
 #[cfg_attr(kani, kani::proof)]
 #[cfg_attr(kani, kani::unwind(10))]
 pub fn c15_deterministic_adjacency_map_n3_p4() {
